@@ -530,3 +530,63 @@ def decoy(path: str, kind: str):
         os.unlink(path)
     except OSError:
         pass
+
+
+# ----------------------------------------------------------------------------- source drift (change-directed budget)
+
+FINGERPRINTS = VERIF / "fingerprints.json"
+
+
+def ast_sha(path) -> str:
+    """SHA-1 of a source file's AST with docstrings removed (comments / layout do not count)"""
+    import ast
+    tree = ast.parse(open(path, encoding="utf-8").read())
+    for node in ast.walk(tree):
+        if isinstance(node, (ast.FunctionDef, ast.AsyncFunctionDef, ast.ClassDef, ast.Module)):
+            b = node.body
+            if b and isinstance(b[0], ast.Expr) and isinstance(getattr(b[0], "value", None), ast.Constant) \
+                    and isinstance(b[0].value.value, str):
+                node.body = b[1:] or [ast.Pass()]
+    return hashlib.sha1(ast.dump(tree, annotate_fields=False, include_attributes=False).encode()).hexdigest()
+
+
+def package_files(repo) -> list[str]:
+    root = Path(repo) / "gaddlemaps"
+    return sorted(str(f.relative_to(repo)) for f in root.rglob("*.py"))
+
+
+def source_drift(ctx: "Ctx"):
+    """Compare the working tree's sources with fingerprints.json (the /repo state the checks were last validated
+    against).  Files that differ mean the code under test CHANGED: the check then explores with a larger budget
+    (x VERIF_DRIFT_SCALE, default 3, when a file anchored for this property changed; x2 when only other package files
+    did).  Never a verdict: a harmless rewrite costs time, nothing else."""
+    repo = os.environ.get("VERIF_REPO", "/repo")
+    info = {"changed_anchored": [], "changed_other": [], "scale": 1.0}
+    try:
+        rec = json.loads(FINGERPRINTS.read_text())["files"]
+        anchored = set()
+        for l in open(VERIF / "properties.jsonl"):
+            p = json.loads(l)
+            if p["id"] == ctx.pid:
+                anchored = set(p["anchors"]["files"])
+        cur = package_files(repo)
+        for f in sorted(set(cur) | set(rec)):
+            path = Path(repo) / f
+            try:
+                sha = ast_sha(path) if path.exists() else "missing"
+            except SyntaxError:
+                sha = "syntax-error"
+            if rec.get(f) != sha:
+                (info["changed_anchored"] if f in anchored else info["changed_other"]).append(f)
+        if info["changed_anchored"]:
+            info["scale"] = float(os.environ.get("VERIF_DRIFT_SCALE", "3"))
+        elif info["changed_other"]:
+            info["scale"] = min(2.0, float(os.environ.get("VERIF_DRIFT_SCALE", "3")))
+    except Exception as e:   # noqa: BLE001  (no fingerprints: behave as if nothing changed)
+        info["error"] = repr(e)
+    ctx.extra["source_drift"] = info
+    if info["scale"] != 1.0:
+        ctx.budget_scale *= info["scale"]
+        print(f"[{ctx.pid}] source drift: {info['changed_anchored'] + info['changed_other']} differ from the validated "
+              f"state; case budget x{info['scale']:g}")
+    return info
